@@ -176,7 +176,7 @@ JModMult(ev) ==
         IN Verdict(ev, flag, XMod(p, ev.m))
 JModExp(ev) ==                       \* a < m, exponent b
    LET flag == IF ev.ca < ev.cm THEN "may"
-               ELSE IF IsZ(ev.b) \/ ev.b = One THEN "ok"
+               ELSE IF ev.b = One THEN "ok"                        \* (a zero exponent takes the general path)
                ELSE IF 2 * Dg(ev.m, ev.w) <= ev.ca THEN "ok" ELSE "may"
    IN Verdict(ev, flag, XModExp(ev.a, ev.b, ev.m))
 JModInv(ev) ==
@@ -187,7 +187,7 @@ JModInv(ev) ==
       THEN (IF ~inv THEN "inverse-of-non-invertible"
             ELSE IF ~(Lt(ev.r, ev.m) /\ XMulMod(ev.r, ev.a, ev.m) = XMod(One, ev.m)) THEN "success-with-wrong-value"
             ELSE IF ev.nz # 1 THEN "denormalized-result" ELSE "ok")
-      ELSE (IF inv /\ dom /\ room THEN "error-not-allowed" ELSE "ok")
+      ELSE (IF inv /\ dom /\ room /\ IsOdd(ev.m) THEN "error-not-allowed" ELSE "ok")   \* binary inversion: an even modulus may be refused
 \* m an odd prime (or even: must be refused); any a.  Odd moduli that fail a Fermat test are outside the
 \* documented domain ("m - odd prime") and nothing is demanded for them.
 FermatOk(m) == \A g \in {2, 3, 5, 7} : IsZ(XMod(FromInt(g), m)) \/ XModExp(FromInt(g), Sub(m, One), m) = One
@@ -318,8 +318,10 @@ Shape(ev) ==
      [] op = "is_bit_set" -> IF IsZ(ev.a) THEN "a=0" ELSE "a>0"
      [] op = "naf" -> IF ev.k < 2 THEN "bad-window" ELSE IF Fits(Add(ev.a, Pow2(ev.k - 1)), ev.w, ev.ca) THEN "headroom" ELSE "a+2^(w-1)-exceeds-capacity"
      [] op = "jsf" -> IF IsZ(ev.a) \/ IsZ(ev.b) THEN "zero-operand" ELSE "nonzero"
-     [] op = "mod_inv" -> IF XGcd(ev.a, ev.m) = One THEN "invertible" ELSE "not-invertible"
-     [] op \in {"l_shift", "r_shift"} -> IF ev.k >= ev.w * ev.ca THEN "bits>=capacity" ELSE "bits<capacity"
+     [] op = "mod_inv" -> IF IsZ(ev.m) \/ XGcd(ev.a, ev.m) # One THEN "not-invertible" ELSE IF IsOdd(ev.m) THEN "odd-modulus" ELSE "even-modulus"
+     [] op = "mod_sqrt" -> IF ~IsOdd(ev.m) THEN "even-modulus" ELSE IF Bit(ev.m, 1) = 1 THEN "m%4=3" ELSE IF Bit(ev.m, 2) = 1 THEN "m%8=5" ELSE "m%8=1"
+     [] op = "l_shift" -> IF ev.k >= ev.w * ev.ca THEN "bits>=capacity" ELSE "bits<capacity"
+     [] op = "r_shift" -> IF ev.k > ev.w * Dg(ev.a, ev.w) THEN "bits>length" ELSE "bits<=length"
      [] op = "imp_be_hex" -> IF Len(OnlyHex(ev.xin)) % 2 = 1 THEN "odd-nibbles" ELSE "even-nibbles"
      [] op = "exp_le_bin" -> IF (Dg(ev.a, ev.w) * ev.w) \div 8 > ev.k THEN "partial-top-digit" ELSE "whole-digits"
      [] OTHER -> ev.al
